@@ -146,7 +146,15 @@ func newWorldPerUser(n int, funds func(i int) sdk.Coins, t time.Time) *World {
 	return w
 }
 
+// setParamsDirect: world set-up, not an observed operation. The param store validates (panics): a share the repository's
+// validation refuses falls back to the default share, so that a stricter validation shows up as a disagreement on a
+// `setparams` operation rather than as a crash of the harness.
 func (s *csrSuite) setParamsDirect(en bool, share sdkmath.LegacyDec) {
+	defer func() {
+		if r := recover(); r != nil {
+			s.w.App.CSRKeeper.SetParams(s.w.Ctx, csrtypes.Params{EnableCsr: en, CsrShares: csrtypes.DefaultCSRShares})
+		}
+	}()
 	s.w.App.CSRKeeper.SetParams(s.w.Ctx, csrtypes.Params{EnableCsr: en, CsrShares: share})
 }
 
@@ -561,7 +569,14 @@ func (s *csrSuite) fund(fee *big.Int) int {
 func (s *csrSuite) runHook(to *common.Address, gasUsed uint64, gasPrice *big.Int, logs []*ethtypes.Log) {
 	w := s.w
 	from := common.BytesToAddress(w.Users[1].Bytes())
-	msg := ethtypes.NewMessage(from, to, 0, big.NewInt(0), gasUsed, gasPrice, gasPrice, gasPrice, nil, ethtypes.AccessList{}, true)
+	// the other numbers a message carries are different from the two the hook must use
+	gasLimit := gasUsed
+	if gasUsed < math.MaxUint64-100_000 {
+		gasLimit = gasUsed + uint64(1+s.r.Intn(100_000))
+	}
+	feeCap := new(big.Int).Add(new(big.Int).Mul(gasPrice, big.NewInt(2)), big.NewInt(7))
+	tipCap := new(big.Int).Div(gasPrice, big.NewInt(3))
+	msg := ethtypes.NewMessage(from, to, uint64(s.r.Intn(1000)), big.NewInt(int64(s.r.Intn(3))), gasLimit, gasPrice, feeCap, tipCap, nil, ethtypes.AccessList{}, true)
 	receipt := &ethtypes.Receipt{Logs: logs, GasUsed: gasUsed, Status: ethtypes.ReceiptStatusSuccessful}
 	toTok := "nil"
 	if to != nil {
